@@ -405,7 +405,7 @@ static Reg reg_c15({"C15", gen_c15, oracle_c15, nullptr, describe_c15});
 
 // ------------------------------------------------------------------ C12
 static const char *C12_DS[] = {"uid", "euid", "gid", "egid", "username", "eusername", "group", "egroup", "pid", "ppid", "sid", "tid", "tid_kernel", "cwd", "hostname", "tty", "tty_uid",
-    "tty_username", "login", "rpname", "snoopy_version", "timestamp", "timestamp_ms", "timestamp_us", "datetime", "env_all"};
+    "tty_username", "login", "rpname", "snoopy_version", "timestamp", "timestamp_ms", "timestamp_us", "datetime", "env_all", "domain", "ipaddr", "systemd_unit_name"};
 static Plan gen_c12(uint64_t seed, const std::string &tier) {
     (void)tier;
     Rng r(seed * 1000003 + 112);
